@@ -205,8 +205,12 @@ Fixpoint gen_loop (t : list kproc) (valid : list Z) (attrs : attrs_t) (x : lstat
   match rest with
   | [] => LStop x
   | (pid, po) :: rest' =>
-    (* if proc is None: proc = add(pid)   [Process(pid); pmap[proc.pid] = proc] *)
-    match (match po with
+    (* if proc is None or proc._pid_reused: proc = add(pid)   [Process(pid); pmap[proc.pid] = proc]
+       (b70d950: a cached instance that is_running() found stale is replaced wherever it is met) *)
+    match (match (match po with
+                  | Some o => if o_reused (l_hp x o) then None else Some o
+                  | None => None
+                  end) with
            | Some o => Some (o, x)
            | None =>
              match find_proc t pid with
